@@ -117,6 +117,33 @@ fn test_template_removal() {
 }
 
 #[test]
+fn test_failed_template_replacement_keeps_old_template() {
+    let mut env = Environment::new();
+
+    // an owned template survives a failing borrowed replacement
+    env.add_template_owned("test", "{{ a }}").unwrap();
+    assert!(env.add_template("test", "{% if %}").is_err());
+    assert_eq!(
+        env.get_template("test")
+            .unwrap()
+            .render(minijinja::context!(a => 1))
+            .unwrap(),
+        "1"
+    );
+
+    // a borrowed template survives a failing owned replacement
+    env.add_template("test2", "{{ a }}").unwrap();
+    assert!(env.add_template_owned("test2", "{% if %}").is_err());
+    assert_eq!(
+        env.get_template("test2")
+            .unwrap()
+            .render(minijinja::context!(a => 2))
+            .unwrap(),
+        "2"
+    );
+}
+
+#[test]
 #[cfg(feature = "multi_template")]
 fn test_path_join() {
     let mut env = Environment::new();
